@@ -10,6 +10,9 @@ CHECKS = {
  "C02": dict(level="model_checking", technique="symbolic execution of the MIR of gm-sm4 into z3 bit-vector queries with the S-box uninterpreted; table checked exhaustively against the algebraic S-box",
              text="Key schedule, encrypt, decrypt ≡ GB/T 32907 for all keys / round keys / blocks; decrypt∘encrypt = encrypt∘decrypt = id proved on the code; cipher object unchanged and repeat calls agree (3-call histories); SBOX/FK/CK ground-checked; thorough adds Kani bit-precise re-proofs.",
              note="S-box uninterpreted in the equivalence queries (sound over-approximation); z3; MIR printer; spec model validated on the Annex example.", design="§2 C02", engine="mirsmt"),
+ "C05": dict(level="model_checking", technique="symbolic execution of the MIR of Sm2PublicKey::encrypt, kdf, xor_bytes, Point::to_byte_be over bit-vectors with the hash/group/field layers as z3 uninterpreted functions",
+             text="kdf(Z,klen) = first klen bytes of SM3(Z||1)||SM3(Z||2)||... for klen 1..70 (thorough 1..300); every returned ciphertext equals C1||C3||C2 or C1||C2||C3 with C1 = SEC1([k]G) in the requested compression, C2 = M xor KDF(x2||y2,|M|), C3 = SM3(x2||M||y2), (x2,y2) = [k]P for the LAST scalar drawn; a retry happens only on an all-zero key stream.",
+             note="layers uninterpreted; retry loop bounded (2 iterations for |M|<=2); round trip follows with C06 + C11 + C19; message lengths listed in evidence.", design="§2 C05", engine="mirsmt"),
  "C06": dict(level="model_checking", technique="symbolic execution of the MIR of Sm2PrivateKey::decrypt (with kdf, xor_bytes) over bit-vectors; hash/decoder/group layers as z3 uninterpreted functions; one query set per ciphertext length",
              text="For every ciphertext length 0..C1+32+40 (thorough +100), both component orders and both C1 encodings, all byte contents and keys: a plaintext is returned only if C1 decodes, its affine form passes the curve check, m = C2 xor KDF(x2||y2,|C2|) with (x2,y2)=[d]C1 and C3 equals SM3(x2||m||y2) on all 32 bytes; no input panics.",
              note="uninterpreted layers (sound for every implementation of them); SM3 collision resistance for 'never a different plaintext'; on-curve predicate/decoder themselves in C11/C19.", design="§2 C06", engine="mirsmt"),
